@@ -56,6 +56,11 @@ def _mx_labels(size):
     return b'\x00\x0a' + b'\x01a' * max(1, size // 2) + b'\x00'
 
 
+def _empty_elements(head, tail):
+    """A list value whose elements are a long run of blank-separated empty ones before a real one."""
+    return lambda size: head + b'; ' * max(1, size // 2) + tail
+
+
 def _txt_strings(size):
     return b''.join(b'\xff' + b'a' * 255 for _ in range(max(1, size // 256)))
 
@@ -98,6 +103,13 @@ EXPLICIT_SHAPES = [(SPF, 'spf-' + term.decode('ascii').split(':')[0].split('=')[
     ('cryptoparser.httpx.header:HttpHeaderFieldValueCacheControlResponse', 'cache-control-extensions',
      lambda size: b'no-cache, ' + b', '.join([b'x=y'] * max(1, size // 5))),
     ('cryptoparser.httpx.header:HttpHeaderFieldValueSetCookie', 'set-cookie-attributes', _tagged(b'n=v; ', b'x=y')),
+    ('cryptoparser.httpx.header:HttpHeaderFieldValueSTS', 'hsts-empty-directives', _empty_elements(b'max-age=1', b'preload')),
+    ('cryptoparser.httpx.header:HttpHeaderFieldValueSetCookie', 'set-cookie-empty-attributes', _empty_elements(b'n=v', b'Secure')),
+    ('cryptoparser.dnsrec.txt:DnsRecordTxtValueDmarc', 'dmarc-empty-tags', _empty_elements(b'v=DMARC1; p=none', b'pct=5')),
+    ('cryptoparser.httpx.header:HttpHeaderFieldValueContentSecurityPolicy', 'csp-empty-directives',
+     _empty_elements(b"default-src 'self'", b"img-src *")),
+    ('cryptoparser.httpx.header:HttpHeaderFieldValueCacheControlResponse', 'cache-control-empty-elements',
+     lambda size: b'no-cache' + b', ' * max(1, size // 2) + b'no-store'),
     ('cryptoparser.ssh.subprotocol:SshKeyExchangeInit', 'kexinit-name-list', _kexinit),
     ('cryptoparser.tls.subprotocol:TlsHandshakeClientHello', 'hello-scsv-tail', _client_hello('scsv-tail')),
     ('cryptoparser.tls.subprotocol:TlsHandshakeClientHello', 'hello-scsv-alternating', _client_hello('scsv-alternating')),
